@@ -1153,6 +1153,48 @@ impl Transport {
     }
 }
 
+/// Verification hooks (only with `--cfg rs_matter_verif`): the mDNS rendezvous slots.
+#[cfg(rs_matter_verif)]
+impl Transport {
+    /// `(resolve, browse)` slot states: 0 idle, 1 requested, 2 in flight, 3 resolved / found.
+    pub fn verif_rendezvous_state(&self) -> (u8, u8) {
+        let r = self.mdns_resolve.modify(|state| {
+            (
+                false,
+                match state {
+                    MdnsResolveState::Idle => 0,
+                    MdnsResolveState::Requested { .. } => 1,
+                    MdnsResolveState::InFlight { .. } => 2,
+                    MdnsResolveState::Resolved { .. } => 3,
+                },
+            )
+        });
+        let b = self.mdns_browse.modify(|state| {
+            (
+                false,
+                match state {
+                    MdnsBrowseState::Idle => 0,
+                    MdnsBrowseState::Requested { .. } => 1,
+                    MdnsBrowseState::InFlight { .. } => 2,
+                    MdnsBrowseState::Found { .. } => 3,
+                },
+            )
+        });
+        (r, b)
+    }
+
+    /// [`Transport::resolve`]; returns the number of resolved addresses.
+    pub async fn verif_resolve(
+        &self,
+        service: MatterRemoteService,
+        timeout_ms: u32,
+    ) -> Result<usize, Error> {
+        self.resolve(service, timeout_ms)
+            .await
+            .map(|node| node.addrs.len())
+    }
+}
+
 /// Which transport a freshly established operational session should run over.
 #[derive(Debug, Clone, Copy, PartialEq, Eq, Default)]
 #[cfg_attr(feature = "defmt", derive(defmt::Format))]
